@@ -8,6 +8,8 @@ Decided (necessary structural conditions on the read / write paths of tensor.py 
           (tt_ind2sub / tt_sub2ind with their F default, no order override; F reshapes)
   DISPATCH every indexing variant (linear, subscripts, subtensor) is handled by __getitem__ and __setitem__ of both
           classes, and an unrecognised key is rejected rather than ignored
+  SORTER  positions returned by np.searchsorted(.., sorter=s) are mapped back through s before they index the unsorted array
+          (no such call on today's tree; positive fixture checked on every run)
   GROW    growth pads with zeros: dense growth allocates np.zeros of the enlarged shape and copies the old block
 Cross-reference: that keys and right-hand sides are not modified is decided by C05 (AL-mut / AL-cap) and that a
 rejected assignment leaves the receiver unchanged by C19 (ES-order).
@@ -82,6 +84,43 @@ def grow(prog: Program, res: Result) -> None:
             res.undecided("GROW", short, desc, prog.loc(fi))
 
 
+def sorter_rule(prog: Program, res: Result, functions=None, tree=None) -> int:
+    """np.searchsorted(a, v, sorter=s) answers positions in the SORTED order of a; used as positions in a itself they
+    must be mapped back through s (s[np.searchsorted(...)])."""
+    n = 0
+    items = [(fi.short, fi.node, fi) for q, fi in sorted(prog.functions.items()) if not fi.parent and fi.module in ("pyttb.pyttb_utils", "pyttb.sptensor", "pyttb.tensor")] \
+        if tree is None else [("fixture", tree, None)]
+    for short, node, fi in items:
+        parents = {}
+        for x in ast.walk(node):
+            for c in ast.iter_child_nodes(x):
+                parents[id(c)] = x
+        for c in ast.walk(node):
+            if isinstance(c, ast.Call) and (dotted(c.func) or "").split(".")[-1] == "searchsorted":
+                srt = None
+                for k in c.keywords:
+                    if k.arg == "sorter":
+                        srt = k.value
+                if srt is None:
+                    continue
+                n += 1
+                par = parents.get(id(c))
+                mapped = isinstance(par, ast.Subscript) and par.slice is c and ast.unparse(par.value) == ast.unparse(srt)
+                # assigned to a name that is later used as index of the sorter
+                if not mapped and isinstance(par, ast.Assign) and isinstance(par.targets[0], ast.Name):
+                    nm = par.targets[0].id
+                    mapped = any(isinstance(x, ast.Subscript) and ast.unparse(x.value) == ast.unparse(srt) and isinstance(x.slice, ast.Name) and x.slice.id == nm
+                                 for x in ast.walk(node))
+                desc = f"positions from np.searchsorted(.., sorter=s) are mapped back through s: {ast.unparse(c)[:70]}"
+                where = prog.loc(fi, c) if fi is not None else "fixture"
+                if mapped:
+                    res.ok("SORTER", short, desc, where)
+                else:
+                    res.bad("SORTER", short, desc, where,
+                            "the result indexes the sorted order of the searched array, not the array itself: wrong whenever that array is not ascending")
+    return n
+
+
 def check(prog: Program, res: Result, tier: str) -> None:
     res.explanation = __doc__.split("\n\n", 1)[1]
     res.assumptions = ["row-helper contracts; operands well-formed", "tt_ind2sub / tt_sub2ind numbering is decided by C17"]
@@ -92,3 +131,11 @@ def check(prog: Program, res: Result, tier: str) -> None:
     E.eo1(prog, res, lambda fi: fi.short in SPARSE + DENSE + UTILS)
     dispatch(prog, res)
     grow(prog, res)
+    sorter_rule(prog, res)
+    # expected count on the tree is zero: keep a positive fixture so that the rule cannot pass vacuously for ever
+    from ..report import Result as _R
+    fx = ast.parse("def f(rng, idx):\n    return np.searchsorted(rng, idx, sorter=np.argsort(rng))\n")
+    tmp = _R("C04")
+    sorter_rule(prog, tmp, tree=fx)
+    if not any(i.verdict == "VIOLATION" for i in tmp.instances):
+        raise AnalysisError("SORTER rule did not fire on its positive fixture")
